@@ -302,14 +302,45 @@ fn split_e2e_case(ctx: &mut Ctx, ps: &mut Passes) {
     if r.chance(50) {
         let q = format!("* | split on {}", kwgen::quote_any(&mut r, &sep));
         let mut input = vec![];
+        let mut texts: Vec<String> = vec![];
         for i in 0..n {
-            let t = gen_split_text(&mut r, &sep).replace('\n', " ");
+            // a third of the lines do not contain the separator at all (one token — which may be quoted)
+            let t = if r.chance(30) {
+                (*r.pick(&["\"hello world\"", "'single quoted'", "\"\"", "plain", "  padded", "\"GET /x\" 200", "'a' 'b'", "\"esc \\\" aped\""])).to_string()
+            } else {
+                gen_split_text(&mut r, &sep).replace('\n', " ")
+            };
+            let t = if t.contains(&sep) && r.chance(0) { t } else { t };
             input.extend(t.as_bytes());
+            texts.push(t);
             if i + 1 < n || r.chance(85) {
                 input.extend(if r.chance(8) { &b"\r\n"[..] } else { &b"\n"[..] });
             }
         }
-        f_level(ctx, ps, "split-e2e", &q, &input);
+        let c = f_level(ctx, ps, "split-e2e", &q, &input);
+        // P-level: the operator's tokens are those of the tokenizer (judged on its own by
+        // `split-spec`), each converted like any extracted text — whether or not the separator
+        // occurs in the line
+        // (only for lines without trailing blanks: how much of a raw line's tail reaches the
+        // tokenizer is the reader's business, C15/C12)
+        if c.imp.compiled && c.imp.panicked.is_none() && !c.imp.hung && texts.iter().all(|t| t.as_str() == t.trim_end()) {
+            let rows = crate::canon::normalized_lines(&c.imp.stdout).unwrap_or_default();
+            let mut want_rows: Vec<crate::canon::J> = vec![];
+            for t in &texts {
+                let line = t.trim_end_matches(|ch| ch == '\r');
+                if let Ok(toks) = impl_split(line.trim_end(), &sep) {
+                    let vals: Vec<crate::canon::J> = toks.iter().map(|x| crate::canon::normalize(&crate::canon::parse(&serde_json::to_string(&ag::data::Value::from_string(x.as_str())).unwrap()).unwrap())).collect();
+                    want_rows.push(crate::canon::J::Arr(vals));
+                }
+            }
+            let got: Vec<crate::canon::J> = rows.iter().filter_map(|row| match row { crate::canon::J::Obj(kvs) => kvs.iter().find(|kv| kv.0 == "_split").map(|kv| kv.1.clone()), _ => None }).collect();
+            let key = ckey(&q, &input);
+            if got.len() == want_rows.len() && got != want_rows {
+                ctx.case("split-e2e-spec", &key, "viol", json!({"class": "C07/split-operator-differs-from-tokenizer", "what": "the `split` operator's array is not the tokenizer's tokens for that line", "got": format!("{:?}", got), "expected": format!("{:?}", want_rows), "case": case_info(&q, &input)}));
+            } else if got.len() == want_rows.len() {
+                ps.pass(ctx, "split-e2e-spec", &key, || case_info(&q, &input));
+            }
+        }
     } else {
         let dst = match r.below(10) {
             0..=5 => " as g",
